@@ -407,8 +407,8 @@ fn adc_mul_limbs(lhs: &[Limb], rhs: &[Limb], out: &mut [Limb]) -> Limb {
             j += 1;
         }
 
-        carry = carry.wrapping_add(carry2);
-        (out[i + j], carry) = out[i + j].adc(Limb::ZERO, carry);
+        // `carry2` is a full-width carry: adding it to `carry` first could wrap
+        (out[i + j], carry) = out[i + j].adc(carry2, carry);
         i += 1;
     }
 
